@@ -1,6 +1,6 @@
-(* C07 - proofs, part 6: 'page down'.  The only way keypress can raise is a candidate widget that
-   lies completely above the top of the new page (and then it is ListBoxError from change_focus);
-   without such a candidate the key is handled. *)
+(* C07 - proofs, part 6: 'page down' never raises.  (Before the repair 1f3edac of
+   _keypress_page_down a candidate widget lying completely above the top of the new page made
+   change_focus raise ListBoxError; such candidates are skipped now.) *)
 From Coq Require Import ZArith List Bool Lia ZifyBool.
 Import ListNotations.
 From Urwid Require Import PyBase ListBoxView ListBoxViewProofs ListBoxWindowProofs ListBoxHistoryProofs
@@ -17,10 +17,6 @@ Arguments Z.min : simpl never.
 Arguments Z.max : simpl never.
 Arguments Z.of_nat : simpl never.
 Arguments Z.to_nat : simpl never.
-
-(* a candidate with rows that lies completely above the top of the new page *)
-Definition BadCand (t : list titem) : Prop :=
-  exists x, In x t /\ t_rows x <> 0 /\ t_ro x + t_rows x <= 0.
 
 (* a candidate is a widget of the list with its own rows *)
 Definition CandOK (its : list item) (x : titem) : Prop :=
@@ -89,7 +85,8 @@ Hypothesis Hcand : forall x, In x t -> CandOK (items s0) x.
 
 (* either the focus is still the old one or a candidate that the second loop accepts was tried *)
 Definition Tr (s : lb) : Prop :=
-  focus s = fpos \/ exists i x, In i oall /\ nthz t i = Some x /\ t_pos x <> fpos /\ t_rows x <> 0.
+  focus s = fpos \/
+  exists i x, In i oall /\ nthz t i = Some x /\ t_pos x <> fpos /\ t_rows x <> 0 /\ 0 < t_ro x + t_rows x.
 
 Lemma pd_loop1_outcome : forall order st,
   incl order oall -> (forall i, In i order -> exists x, nthz t i = Some x) ->
@@ -97,7 +94,7 @@ Lemma pd_loop1_outcome : forall order st,
   match pd_loop1 m sr t order st with
   | Ok (PDone s') => SInv s0 s'
   | Ok (PCont st') => SInv s0 (p_s st') /\ Tr (p_s st')
-  | Err e => e = ListBoxError /\ BadCand t
+  | Err e => False
   end.
 Proof.
   induction order as [|i rest IH]; intros st Hincl Hidx Hs Htr; cbn [pd_loop1]; [now split|].
@@ -106,23 +103,22 @@ Proof.
   assert (Hidx' : forall j, In j rest -> exists x, nthz t j = Some x) by (intros j Hj; apply Hidx; now right).
   destruct (negb (sel_at (items (p_s st)) pos)); [apply IH; assumption|].
   destruct (rows =? 0) eqn:Er; [apply IH; assumption|].
+  destruct (ro + rows <=? 0) eqn:Eab; [apply IH; assumption|].
   pose proof (nthz_In _ _ _ Ex) as Hin.
   destruct (Hcand _ Hin) as (w & Hw & Hrw). cbn [t_pos t_rows fst snd] in Hw, Hrw.
   assert (Hcall : forall oi sr', (oi = ro \/ 0 <= oi) ->
-            (exists s', change_focus_sr (p_s st) m pos oi CAbove sr' = Ok s' /\ SInv s0 s' /\ focus s' = pos) \/
-            (change_focus_sr (p_s st) m pos oi CAbove sr' = Err ListBoxError /\ BadCand t)).
+            exists s', change_focus_sr (p_s st) m pos oi CAbove sr' = Ok s' /\ SInv s0 s' /\ focus s' = pos).
   { intros oi sr' Hoi.
-    destruct (cf_call s0 (p_s st) m pos oi CAbove sr' w Hm ltac:(discriminate) Hs Hw) as [H|[H1 H2]]; [now left|].
-    right. split; [assumption|]. exists (ro, pos, rows). cbn [t_pos t_rows t_ro fst snd].
-    splits; [assumption | lia |]. unfold topvis in H2. destruct Hoi as [->|Hoi]; lia. }
+    destruct (cf_call s0 (p_s st) m pos oi CAbove sr' w Hm ltac:(discriminate) Hs Hw) as [H|[_ H2]]; [assumption|].
+    exfalso. apply H2. unfold topvis. destruct Hoi as [->|Hoi]; lia. }
   match goal with |- context [match ?c with Ok _ => _ | Err _ => _ end] =>
-    assert (Hc : (exists s', c = Ok s' /\ SInv s0 s' /\ focus s' = pos) \/ (c = Err ListBoxError /\ BadCand t)) end.
+    assert (Hc : exists s', c = Ok s' /\ SInv s0 s' /\ focus s' = pos) end.
   { destruct (m <=? ro) eqn:Emr; [apply Hcall; right; lia | apply Hcall; now left]. }
-  destruct Hc as [(s' & -> & Hs' & Hf')|[-> Hb]]; [|now split].
+  destruct Hc as (s' & -> & Hs' & Hf').
   destruct (vis_total s0 s' m Hm HW Hs') as (v & ->).
   assert (Htr' : Tr s').
   { destruct (Z.eq_dec pos fpos) as [->|Hne]; [now left|]. right. exists i, (ro, pos, rows).
-    cbn [t_pos t_rows fst snd]. splits; try assumption; try lia. apply Hincl. now left. }
+    cbn [t_pos t_rows t_ro fst snd]. splits; try assumption; try lia. apply Hincl. now left. }
   destruct (v_off_inset v <? ro - sr); [apply IH; assumption|].
   destruct (ro <? v_off_inset v); [apply IH; assumption|].
   destruct (m <? v_off_inset v + rows); [apply IH; assumption|].
@@ -133,32 +129,34 @@ Lemma pd_loop2_outcome : forall s order ro,
   (forall i, In i order -> exists x, nthz t i = Some x) -> SInv s0 s ->
   match pd_loop2 s m sr fpos t order ro with
   | Ok (Some s', _) => SInv s0 s'
-  | Ok (None, _) => forall i x, In i order -> nthz t i = Some x -> t_pos x = fpos \/ t_rows x = 0
-  | Err e => e = ListBoxError /\ BadCand t
+  | Ok (None, _) => forall i x, In i order -> nthz t i = Some x ->
+                                t_pos x = fpos \/ t_rows x = 0 \/ t_ro x + t_rows x <= 0
+  | Err e => False
   end.
 Proof.
   intros s. induction order as [|i rest IH]; intros ro0 Hidx Hs; cbn [pd_loop2]; [intros i x []|].
   destruct (Hidx i (or_introl eq_refl)) as ([[ro pos] rows] & Ex). rewrite Ex.
   assert (Hidx' : forall j, In j rest -> exists x, nthz t j = Some x) by (intros j Hj; apply Hidx; now right).
-  assert (Hskip : forall ro', (pos = fpos \/ rows = 0) ->
+  assert (Hskip : forall ro', (pos = fpos \/ rows = 0 \/ ro + rows <= 0) ->
      match pd_loop2 s m sr fpos t rest ro' with
      | Ok (Some s', _) => SInv s0 s'
-     | Ok (None, _) => forall j x, In j (i :: rest) -> nthz t j = Some x -> t_pos x = fpos \/ t_rows x = 0
-     | Err e => e = ListBoxError /\ BadCand t
+     | Ok (None, _) => forall j x, In j (i :: rest) -> nthz t j = Some x ->
+                                   t_pos x = fpos \/ t_rows x = 0 \/ t_ro x + t_rows x <= 0
+     | Err e => False
      end).
   { intros ro' Hsk. specialize (IH ro' Hidx' Hs).
     destruct (pd_loop2 s m sr fpos t rest ro') as [[[s'|] r2]|]; try assumption.
-    intros j x [<-|Hj] Hx; [rewrite Ex in Hx; inversion Hx; subst; cbn [t_pos t_rows fst snd]; assumption | eapply IH; eassumption]. }
+    intros j x [<-|Hj] Hx; [rewrite Ex in Hx; inversion Hx; subst; cbn [t_pos t_rows t_ro fst snd]; assumption | eapply IH; eassumption]. }
   destruct (pos =? fpos) eqn:Ep; [apply Hskip; left; lia|].
-  destruct (rows =? 0) eqn:Er; [apply Hskip; right; lia|].
+  destruct (rows =? 0) eqn:Er; [apply Hskip; right; left; lia|].
+  destruct (ro + rows <=? 0) eqn:Eab; [apply Hskip; right; right; lia|].
   pose proof (nthz_In _ _ _ Ex) as Hin.
   destruct (Hcand _ Hin) as (w & Hw & Hrw). cbn [t_pos t_rows fst snd] in Hw, Hrw.
   destruct (m <=? ro) eqn:Emr.
   - destruct (cf_call s0 s m pos (m - 1) CAbove (sr - (sr + m - ro - 1)) w Hm ltac:(discriminate) Hs Hw)
       as [(s' & -> & Hs' & _)|[_ H2]]; [assumption|]. exfalso. apply H2. left. lia.
-  - destruct (cf_call s0 s m pos ro CAbove sr w Hm ltac:(discriminate) Hs Hw) as [(s' & -> & Hs' & _)|[-> H2]]; [assumption|].
-    split; [reflexivity|]. exists (ro, pos, rows). cbn [t_pos t_rows t_ro fst snd].
-    splits; [assumption | lia |]. unfold topvis in H2. lia.
+  - destruct (cf_call s0 s m pos ro CAbove sr w Hm ltac:(discriminate) Hs Hw) as [(s' & -> & Hs' & _)|[_ H2]]; [assumption|].
+    exfalso. apply H2. unfold topvis. lia.
 Qed.
 End Loops.
 
@@ -278,16 +276,13 @@ Proof.
 Qed.
 
 (* ---------- 'page down' ---------- *)
-Theorem page_down_outcome : forall s m,
+Theorem page_down_never_raises_lemma : forall s m,
   ViewOK s -> WidgetsOK (items s) -> 1 <= m ->
-  (exists s' b, keypress_page_down s m = Ok (s', b) /\ ViewOK s' /\ items s' = items s) \/
-  (keypress_page_down s m = Err ListBoxError /\
-   exists v, visible (items s) (focus s) (off s) (inum s) (iden s) m true = Ok (Some v) /\
-             BadCand (pd_candidates s m v)).
+  exists s' b, keypress_page_down s m = Ok (s', b) /\ ViewOK s' /\ items s' = items s.
 Proof.
   intros s m Hv HW Hm. pose proof HW as [Hh Hc]. unfold keypress_page_down.
   destruct (nthz (items s) (focus s)) as [w|] eqn:Hw.
-  2: { left. unfold visible. rewrite Hw. exists s, true. auto. }
+  2: { unfold visible. rewrite Hw. exists s, true. auto. }
   destruct Hv as [Ho Hnd].
   destruct (visible_ok (items s) (focus s) (off s) (inum s) (iden s) m true w) as (v & Ev & HV & _);
     [constructor; assumption | assumption | apply Hc; now apply nthz_In in Hw |].
@@ -310,20 +305,20 @@ Proof.
   pose proof (pd_loop1_outcome s m sr (v_fpos v) t order Hm HW Hcand' order
                 {| p_s := s; p_bad := []; p_cut := false; p_ro := t_ro x0 |}
                 (incl_refl _) Hidx Hs0 (or_introl (eq_sym Efp))) as H1.
-  destruct (pd_loop1 m sr t order _) as [[s1|st]|e].
-  - left. destruct H1 as (A & B & _). exists s1, false. auto.
+  destruct (pd_loop1 m sr t order _) as [[s1|st]|e]; [| |contradiction].
+  - destruct H1 as (A & B & _). exists s1, false. auto.
   - destruct H1 as (Hs1 & Htr1). destruct (p_cut st).
-    { left. destruct Hs1 as (A & B & _). exists (p_s st), false. auto. }
+    { destruct Hs1 as (A & B & _). exists (p_s st), false. auto. }
     set (good := filter (fun j => negb (existsb (Z.eqb j) (p_bad st))) order).
     assert (Hidx2 : forall i, In i (good ++ order) -> exists x, nthz t i = Some x).
     { intros i Hi. apply in_app_or in Hi. destruct Hi as [Hi|Hi]; [apply filter_In in Hi; destruct Hi as [Hi _]|]; now apply Hidx. }
     pose proof (pd_loop2_outcome s m sr (v_fpos v) t Hm Hcand' (p_s st) (good ++ order) (p_ro st) Hidx2 Hs1) as H2.
-    destruct (pd_loop2 (p_s st) m sr (v_fpos v) t (good ++ order) (p_ro st)) as [[[s2|] ro2]|e].
-    + left. destruct H2 as (A & B & _). exists s2, false. auto.
+    destruct (pd_loop2 (p_s st) m sr (v_fpos v) t (good ++ order) (p_ro st)) as [[[s2|] ro2]|e]; [| |contradiction].
+    + destruct H2 as (A & B & _). exists s2, false. auto.
     + (* no choices available: the focus is still the old one *)
       assert (Hfoc : focus (p_s st) = v_fpos v).
-      { destruct Htr1 as [?|(i & x & Hi & Hx & Hne & Hr)]; [assumption|].
-        destruct (H2 i x (in_or_app _ _ _ (or_intror Hi)) Hx); contradiction. }
+      { destruct Htr1 as [?|(i & x & Hi & Hx & Hne & Hr & Hab)]; [assumption|].
+        destruct (H2 i x (in_or_app _ _ _ (or_intror Hi)) Hx) as [?|[?|?]]; [contradiction | contradiction | lia]. }
       destruct Hs1 as (Hv1 & Hi1 & Hf1).
       assert (Hra : rows_at (items (p_s st)) (focus (p_s st)) = v_frows v).
       { unfold rows_at. rewrite Hi1, Hfoc, Efp, Hw. now rewrite Efr. }
@@ -336,49 +331,30 @@ Proof.
       assert (Hs3 : SInv s s3).
       { split; [assumption|]. split; [congruence|]. rewrite Hf3. assumption. }
       destruct (vis_total s s3 m Hm HW Hs3) as (v2 & ->).
-      destruct (v_off_inset v2 <=? ro2); [left; exists s3, false; split; [reflexivity | split; [assumption | congruence]]|].
-      destruct (rev t) as [|xl rt]; [left; exists s3, false; split; [reflexivity | split; [assumption | congruence]]|].
+      destruct (v_off_inset v2 <=? ro2); [exists s3, false; split; [reflexivity | split; [assumption | congruence]]|].
+      destruct (rev t) as [|xl rt]; [exists s3, false; split; [reflexivity | split; [assumption | congruence]]|].
       destruct (nthz (items s3) (t_pos xl + 1)) as [w2|] eqn:Ew2;
-        [|left; exists s3, false; split; [reflexivity | split; [assumption | congruence]]].
+        [|exists s3, false; split; [reflexivity | split; [assumption | congruence]]].
       destruct (change_focus_sr_ok s3 m (t_pos xl + 1) (m - 1) CAbove 0 w2 Hm ltac:(discriminate) Ew2 ltac:(left; lia))
         as (s4 & Es4 & _ & Hi4 & _ & Hv4 & _).
-      left. exists s4, false. unfold lift_k. rewrite Es4. split; [reflexivity | split; [assumption | congruence]].
-    + right. destruct H2 as [-> Hb2]. split; [reflexivity|]. exists v. split; [reflexivity | rewrite <- Et; assumption].
-  - right. destruct H1 as [-> Hb1]. split; [reflexivity|]. exists v. split; [reflexivity | rewrite <- Et; assumption].
+      exists s4, false. unfold lift_k. rewrite Es4. split; [reflexivity | split; [assumption | congruence]].
 Qed.
 
-(* without a candidate completely above the new page 'page down' is handled *)
-Corollary page_down_ok : forall s m v,
+(* the whole key: completing any pending request, then paging down *)
+Theorem keypress_page_down_never_raises_lemma : forall s m,
   ViewOK s -> WidgetsOK (items s) -> 1 <= m ->
-  visible (items s) (focus s) (off s) (inum s) (iden s) m true = Ok (Some v) ->
-  (forall x, In x (pd_candidates s m v) -> t_rows x = 0 \/ 0 < t_ro x + t_rows x) ->
-  exists s' b, keypress_page_down s m = Ok (s', b) /\ ViewOK s' /\ items s' = items s.
+  exists s' b, keypress s m KPageDown = Ok (s', b) /\ ViewOK s' /\ items s' = items s.
 Proof.
-  intros s m v Hv HW Hm Ev Hno.
-  destruct (page_down_outcome s m Hv HW Hm) as [H|(_ & v' & Ev' & x & Hx & Hr & Hro)]; [assumption|].
-  rewrite Ev in Ev'. inversion Ev'; subst v'. destruct (Hno x Hx); lia.
+  intros s m Hv [Hh Hc] Hm. unfold keypress.
+  destruct (set_focus_complete_ok s m true Hv Hh Hm Hc) as (s1 & -> & _ & Hi1 & Hv1 & _).
+  destruct (nthz (items s1) (focus s1)); [|exists s1, true; auto].
+  destruct (page_down_never_raises_lemma s1 m Hv1 ltac:(rewrite Hi1; split; assumption) Hm) as (s' & b & E & A & B).
+  exists s', b. rewrite E. split; [reflexivity | split; [assumption | congruence]].
 Qed.
 
-(* it does happen, with ordinary widgets: a one-row text, a one-row selectable widget and a two-row
-   text in a box of two rows, the focus on the first widget at the top ('home'), then 'page down' *)
+(* the formerly failing situation: a one-row text, a one-row selectable widget and a two-row text in a
+   box of two rows, the focus on the first widget at the top ('home'), then 'page down' *)
 Definition pd_witness : lb :=
   {| items := [ {| i_rows := 1; i_sel := false; i_cy := None |}; {| i_rows := 1; i_sel := true; i_cy := None |};
                 {| i_rows := 2; i_sel := false; i_cy := None |} ];
      focus := 0; off := 0; inum := 0; iden := 1; pend := PNone; vpend := None |}.
-
-Lemma page_down_raises_witness :
-  ViewOK pd_witness /\ WidgetsOK (items pd_witness) /\ keypress_page_down pd_witness 2 = Err ListBoxError.
-Proof.
-  split; [unfold ViewOK; cbn; lia|]. split; [|vm_compute; reflexivity].
-  split; [repeat constructor; cbn; lia|]. intros w Hin cy Hcy.
-  destruct Hin as [<-|[<-|[<-|[]]]]; discriminate.
-Qed.
-
-Definition page_down_never_raises_stmt : Prop :=
-  forall s m, ViewOK s -> WidgetsOK (items s) -> 1 <= m -> exists s' b, keypress_page_down s m = Ok (s', b).
-
-Lemma page_down_never_raises_refutation : ~ page_down_never_raises_stmt.
-Proof.
-  intros H. destruct page_down_raises_witness as (Hv & HW & E).
-  destruct (H pd_witness 2 Hv HW ltac:(lia)) as (s' & b & E'). rewrite E in E'. discriminate.
-Qed.
